@@ -141,6 +141,18 @@ def step (d : DS) (line : String) : DS × String :=
           let s' := quiesce d.cfg d.g 10000 s
           if s'.cur.isSome then (d, "fuel-exhausted") else report d d.st s'
     | _, _ => (d, "bad-op")
+  | ["spawn", mode, rs, par] =>
+    -- created by the finished invocation `par` (the new task starts in a copy of its context)
+    match (if mode == "p" then some false else if mode == "b" then some true else none), parseNats? rs, parseNat? par with
+    | some bare, some reqs, some p =>
+      if bare && reqs.length != 1 then (d, "bad-op")
+      else
+        match _root_.Resource.stepFrom d.cfg d.g d.st p reqs bare with
+        | none => (d, "disabled")
+        | some s =>
+          let s' := quiesce d.cfg d.g 10000 s
+          if s'.cur.isSome then (d, "fuel-exhausted") else report d d.st s'
+    | _, _, _ => (d, "bad-op")
   | ["open", t] =>
     match parseNat? t with
     | some t =>
